@@ -182,4 +182,84 @@ theorem primField_perm (s : Schema) (p : Params) (bs : Bytes) (r : Val × Bytes)
       | err => simp [hpp] at h
       | panic => simp [hpp] at h
 
+/-- both directions of the mutual recursion `parseField` / `parseFields` (used by `ZV.C20.perm_extends`) -/
+theorem perm_both (s : Schema) :
+    (∀ p bs r, parseField false s p bs = .ok r → parseField true s p bs = .ok r) ∧
+    (∀ bs r, parseFields false s bs = .ok r → parseFields true s bs = .ok r) := by
+  induction s with
+  | struct fs ih =>
+    refine ⟨?_, fun bs r h => by simp [parseFields] at h⟩
+    intro p bs r h
+    simp only [parseField] at h ⊢
+    by_cases hb : bs.isEmpty = true
+    · rw [if_pos hb] at h ⊢; exact h
+    · rw [if_neg hb] at h ⊢
+      obtain ⟨hf, hg, hd⟩ := parsePre_perm (.struct fs) p bs
+      cases hp : parsePre false (.struct fs) p bs with
+      | err => simp [hp] at h
+      | dflt => rw [hd hp]; simpa [hp] using h
+      | flag r' => rw [hf r' hp]; simpa [hp] using h
+      | go t u inner rest =>
+        rw [hg t u inner rest hp]
+        simp only [hp] at h ⊢
+        cases hfs : parseFields false fs inner with
+        | ok x => rw [ih.2 _ _ hfs]; simpa [hfs] using h
+        | err => simp [hfs] at h
+        | panic => simp [hfs] at h
+  | seqOf sn e ih =>
+    refine ⟨?_, fun bs r h => by simp [parseFields] at h⟩
+    intro p bs r h
+    simp only [parseField] at h ⊢
+    by_cases hb : bs.isEmpty = true
+    · rw [if_pos hb] at h ⊢; exact h
+    · rw [if_neg hb] at h ⊢
+      obtain ⟨hf, hg, hd⟩ := parsePre_perm (.seqOf sn e) p bs
+      cases hp : parsePre false (.seqOf sn e) p bs with
+      | err => simp [hp] at h
+      | dflt => rw [hd hp]; simpa [hp] using h
+      | flag r' => rw [hf r' hp]; simpa [hp] using h
+      | go t u inner rest =>
+        rw [hg t u inner rest hp]
+        simp only [hp] at h ⊢
+        cases hu : univ e with
+        | none => simp [hu] at h
+        | some x =>
+          obtain ⟨ma, et, ec⟩ := x
+          simp only [hu] at h ⊢
+          cases hc : countElems false ma et ec inner.length inner with
+          | err => simp [hc] at h
+          | panic => simp [hc] at h
+          | ok n =>
+            rw [countElems_perm _ _ _ _ _ _ hc]
+            simp only [hc] at h ⊢
+            cases hpe : parseElems (fun b => parseField false e {} b) n inner with
+            | ok vs =>
+              rw [parseElems_perm _ (fun b => parseField true e {} b) (fun bs r hh => ih.1 {} bs r hh) n inner vs hpe]
+              simpa [hpe] using h
+            | err => simp [hpe] at h
+            | panic => simp [hpe] at h
+  | fnil =>
+    refine ⟨fun p bs r h => by simp [parseField] at h, fun bs r h => ?_⟩
+    simpa [parseFields] using h
+  | fcons p s rest ihs ihr =>
+    refine ⟨fun p bs r h => by simp [parseField] at h, fun bs r h => ?_⟩
+    simp only [parseFields] at h ⊢
+    cases h1 : parseField false s p bs with
+    | ok x =>
+      obtain ⟨v, r1⟩ := x
+      rw [ihs.1 _ _ _ h1]
+      simp only [h1] at h ⊢
+      cases h2 : parseFields false rest r1 with
+      | ok y => rw [ihr.2 _ _ h2]; simpa [h2] using h
+      | err => simp [h2] at h
+      | panic => simp [h2] at h
+    | err => simp [h1] at h
+    | panic => simp [h1] at h
+  | _ =>
+    refine ⟨?_, fun bs r h => by simp [parseFields] at h⟩
+    intro p bs r h
+    simp only [parseField] at h ⊢
+    exact primField_perm _ p bs r h
+
+
 end ZV.C18
